@@ -175,8 +175,8 @@ def cmp_lh_rat(ctx, kind, mo, im):
             return k + " length differs"
         if b["conv"] == "1" and any(abs(p - q) > ENV for p, q in zip(va, vb)):
             return "%s outside the envelope 1e-9" % k
-        if b["conv"] == "1" and [p != 0 for p in va] != [q != 0 for q in vb]:
-            return "support of %s differs" % k
+        # (supports are compared through the bases b0/b1 above: a degenerate basic variable is
+        #  exactly 0 in the model and rounding noise in the code)
     return None
 
 
